@@ -376,4 +376,338 @@ theorem ucl_hdrsWf (hb : Buf) (hfit : hb.size ≤ 65535)
   have h := ucl_hdrsParse_facts hb 0 hfit (Nat.zero_le _)
   exact ⟨fun _ p hp => (h p hp).1, fun hok => (ucl_hdrsNoDup_text hb hfit).2 (hnd hok)⟩
 
+/-! ### (2b) raw URIs: the side conditions `URIWf` / `URIGood` for everything ParseURI accepts -/
+
+/-- the slice of the buffer a field designates -/
+def uclSeg (b : Buf) (f : PField) : Buf := b.extract f.offs (f.offs + f.len)
+
+/-- every component of a URI accepted by ParseURI reads back as the slice `[offs, offs + len)` of the string -/
+theorem ucl_parse_get (raw : Buf) (hfit : raw.size ≤ 65535) (hacc : (parseURI raw {}).1 = .none) :
+    ∀ f ∈ [(parseURI raw {}).2.2.1.scheme, (parseURI raw {}).2.2.1.user, (parseURI raw {}).2.2.1.pass,
+        (parseURI raw {}).2.2.1.host, (parseURI raw {}).2.2.1.port, (parseURI raw {}).2.2.1.params,
+        (parseURI raw {}).2.2.1.headers], f.get? raw = some (uclSeg raw f) := by
+  obtain ⟨_, t, k, u0, hk, hl, hty, hu⟩ := (parseURI_ok raw hfit).2.2 hacc
+  have hk0 : 0 < k := by rcases hk with ⟨_, rfl, _⟩ | ⟨_, rfl, _⟩ | ⟨_, rfl, _⟩ <;> decide
+  have hg := hl.get hk0 hfit
+  rw [hu]
+  intro f hf
+  by_cases ht : t = TELuri
+  · rw [if_pos ht] at hf
+    simp only [telSwap, List.mem_cons, List.not_mem_nil, or_false] at hf
+    rcases hf with rfl | rfl | rfl | rfl | rfl | rfl | rfl
+    · exact hg _ (by simp)
+    · exact hg _ (by simp)
+    · exact hg _ (by simp)
+    · exact field_get? raw 0 0 (Nat.zero_le _) hfit
+    · exact hg _ (by simp)
+    · exact hg _ (by simp)
+    · exact hg _ (by simp)
+  · rw [if_neg ht] at hf
+    exact hg f hf
+
+/-- the parameter string of a raw URI (the bytes between the first `;` after the host part and the `?` or the end),
+    as ParseURI delimits it -/
+def uclParamsText (raw : Buf) : Buf := uclSeg raw (parseURI raw {}).2.2.1.params
+
+/-- the header string of a raw URI (the bytes after the `?`), as ParseURI delimits it -/
+def uclHdrsText (raw : Buf) : Buf := uclSeg raw (parseURI raw {}).2.2.1.headers
+
+theorem uclSeg_size_le (b : Buf) (f : PField) : (uclSeg b f).size ≤ b.size := by
+  unfold uclSeg
+  simp only [Array.size_extract]
+  omega
+
+/-- the parameter and header lists of the raw URI are well formed: ParseAllURIParams / ParseAllURIHdrs (as called
+    by URICmp: end of input flagged) accept them -/
+structure UclListsOk (raw : Buf) : Prop where
+  params : errOkOrEOH (uriParamsParse (uclParamsText raw) 0).1 = true
+  headers : errOkOrEOH (uriHdrsParse (uclHdrsText raw) 0).1 = true
+
+/-- the parameter and header lists of the raw URI are free of duplicate names: no two parameter names and no two
+    header names (byte strings of the text) are equal up to ASCII letter case.  Only lists that parse are
+    constrained. -/
+structure UclNoDup (raw : Buf) : Prop where
+  params : errOkOrEOH (uriParamsParse (uclParamsText raw) 0).1 = true → UclNoDupNames (uclParamNames (uclParamsText raw))
+  headers : errOkOrEOH (uriHdrsParse (uclHdrsText raw) 0).1 = true → UclNoDupNames (uclHdrNames (uclHdrsText raw))
+
+instance (raw : Buf) : Decidable (UclListsOk raw) :=
+  decidable_of_iff (errOkOrEOH (uriParamsParse (uclParamsText raw) 0).1 = true ∧
+    errOkOrEOH (uriHdrsParse (uclHdrsText raw) 0).1 = true) ⟨fun ⟨a, b⟩ => ⟨a, b⟩, fun ⟨a, b⟩ => ⟨a, b⟩⟩
+
+instance (raw : Buf) : Decidable (UclNoDup raw) :=
+  decidable_of_iff ((errOkOrEOH (uriParamsParse (uclParamsText raw) 0).1 = true →
+      UclNoDupNames (uclParamNames (uclParamsText raw))) ∧
+    (errOkOrEOH (uriHdrsParse (uclHdrsText raw) 0).1 = true → UclNoDupNames (uclHdrNames (uclHdrsText raw))))
+    ⟨fun ⟨a, b⟩ => ⟨a, b⟩, fun ⟨a, b⟩ => ⟨a, b⟩⟩
+
+/-- **every URI ParseURI accepts (sip, sips, tel; at most 65,535 bytes) whose parameter and header names are free of
+    duplicates is well formed for comparison** (`URIWf`, the hypothesis of the symmetry law) -/
+theorem ucl_uriWf (raw : Buf) (hfit : raw.size ≤ 65535) (hacc : (parseURI raw {}).1 = .none) (hnd : UclNoDup raw) :
+    URIWf (parseURI raw {}).2.2.1 raw := by
+  have hg := ucl_parse_get raw hfit hacc
+  have hsome : ∀ {f : PField} {x : Buf}, f.get? raw = some x → (f.get? raw).isSome := fun h => by rw [h]; rfl
+  refine ⟨hsome (hg _ (by simp)), hsome (hg _ (by simp)), hsome (hg _ (by simp)),
+    ⟨uclParamsText raw, hg _ (by simp), ?_⟩, ⟨uclHdrsText raw, hg _ (by simp), ?_⟩⟩
+  · exact ucl_paramsWf _ (by have := uclSeg_size_le raw (parseURI raw {}).2.2.1.params; unfold uclParamsText; omega)
+      hnd.params
+  · exact ucl_hdrsWf _ (by have := uclSeg_size_le raw (parseURI raw {}).2.2.1.headers; unfold uclHdrsText; omega)
+      hnd.headers
+
+/-- … and if moreover its parameter and header lists are well formed, it satisfies `URIGood`, the hypothesis of the
+    reflexivity law -/
+theorem ucl_uriGood (raw : Buf) (hfit : raw.size ≤ 65535) (hacc : (parseURI raw {}).1 = .none) (hok : UclListsOk raw)
+    (hnd : UclNoDup raw) : URIGood (parseURI raw {}).2.2.1 raw := by
+  have w := ucl_uriWf raw hfit hacc hnd
+  have hg := ucl_parse_get raw hfit hacc
+  obtain ⟨pb, hpb, wp⟩ := w.params
+  obtain ⟨hb, hhb, wh⟩ := w.headers
+  have e1 : pb = uclParamsText raw := by
+    have := hg (parseURI raw {}).2.2.1.params (by simp)
+    rw [hpb] at this; cases this; rfl
+  have e2 : hb = uclHdrsText raw := by
+    have := hg (parseURI raw {}).2.2.1.headers (by simp)
+    rw [hhb] at this; cases this; rfl
+  subst e1; subst e2
+  exact ⟨w.user, w.pass, w.host, ⟨_, hpb, wp, hok.params⟩, ⟨_, hhb, wh, hok.headers⟩⟩
+
+theorem ucl_parse_eq (raw : Buf) (hfit : raw.size ≤ 65535) (hacc : (parseURI raw {}).1 = .none) :
+    parseURI raw {} = (UErr.none, (parseURI raw {}).2.1, (parseURI raw {}).2.2.1, false) := by
+  have h2 := (parseURI_ok raw hfit).2.1
+  rcases hp : parseURI raw {} with ⟨e, n, u, c⟩
+  rw [hp] at hacc h2
+  simp only at hacc h2
+  rw [hacc, h2]
+
+/-- **REFLEXIVITY for the raw-string entry point**: every raw URI of at most 65,535 bytes that ParseURI accepts, whose
+    parameter and header lists are well formed and free of duplicate names, is equal to itself under every flag
+    value; URIParseCmp reports no error and hands back the parsed URI twice. -/
+theorem uriParseCmp_refl_raw (raw : Buf) (f : Nat) (hfit : raw.size ≤ 65535) (hacc : (parseURI raw {}).1 = .none)
+    (hok : UclListsOk raw) (hnd : UclNoDup raw) :
+    uriParseCmp raw raw f =
+      some (true, UErr.none, 0, some (parseURI raw {}).2.2.1, some (parseURI raw {}).2.2.1) := by
+  have hp := ucl_parse_eq raw hfit hacc
+  rw [uriParseCmp_ok raw raw f hp hp, uriCmp_refl _ raw f (ucl_uriGood raw hfit hacc hok hnd)]
+  rfl
+
+/-- … and the same for URICmp on the parsed URI -/
+theorem uriCmp_refl_parsed (raw : Buf) (f : Nat) (hfit : raw.size ≤ 65535) (hacc : (parseURI raw {}).1 = .none)
+    (hok : UclListsOk raw) (hnd : UclNoDup raw) :
+    uriCmp (parseURI raw {}).2.2.1 raw (parseURI raw {}).2.2.1 raw f = some true :=
+  uriCmp_refl _ raw f (ucl_uriGood raw hfit hacc hok hnd)
+
+/-- **SYMMETRY of URICmp on parsed URIs**: any two accepted raw URIs (at most 65,535 bytes each) free of duplicate
+    parameter / header names, every flag value; the parameter / header lists need not be well formed, and a panic
+    (`none`) would be symmetric too -/
+theorem uriCmp_symm_parsed (raw1 raw2 : Buf) (f : Nat) (hfit1 : raw1.size ≤ 65535) (hfit2 : raw2.size ≤ 65535)
+    (hacc1 : (parseURI raw1 {}).1 = .none) (hacc2 : (parseURI raw2 {}).1 = .none)
+    (hnd1 : UclNoDup raw1) (hnd2 : UclNoDup raw2) :
+    uriCmp (parseURI raw1 {}).2.2.1 raw1 (parseURI raw2 {}).2.2.1 raw2 f =
+      uriCmp (parseURI raw2 {}).2.2.1 raw2 (parseURI raw1 {}).2.2.1 raw1 f :=
+  uriCmp_symm _ raw1 _ raw2 f (ucl_uriWf raw1 hfit1 hacc1 hnd1) (ucl_uriWf raw2 hfit2 hacc2 hnd2)
+
+/-- **SYMMETRY for the raw-string entry point**: for ANY two byte strings of at most 65,535 bytes (accepted by
+    ParseURI or not) the verdict of URIParseCmp does not depend on the order of the arguments, provided the accepted
+    ones are free of duplicate parameter / header names -/
+theorem uriParseCmp_symm_raw (raw1 raw2 : Buf) (f : Nat) (hfit1 : raw1.size ≤ 65535) (hfit2 : raw2.size ≤ 65535)
+    (hnd1 : (parseURI raw1 {}).1 = .none → UclNoDup raw1) (hnd2 : (parseURI raw2 {}).1 = .none → UclNoDup raw2) :
+    (uriParseCmp raw1 raw2 f).map (·.1) = (uriParseCmp raw2 raw1 f).map (·.1) := by
+  have p1 := (parseURI_ok raw1 hfit1).2.1
+  have p2 := (parseURI_ok raw2 hfit2).2.1
+  rw [uriParseCmp_eq, uriParseCmp_eq]
+  simp only [p1, p2, Bool.false_eq_true, ↓reduceIte]
+  by_cases c1 : (parseURI raw1 {}).1 = UErr.none
+  · by_cases c2 : (parseURI raw2 {}).1 = UErr.none
+    · have b1 : ((parseURI raw1 {}).1 != UErr.none) = false := by rw [c1]; rfl
+      have b2 : ((parseURI raw2 {}).1 != UErr.none) = false := by rw [c2]; rfl
+      simp only [b1, b2, Bool.false_eq_true, ↓reduceIte]
+      rw [uriCmp_symm_parsed raw1 raw2 f hfit1 hfit2 c1 c2 (hnd1 c1) (hnd2 c2)]
+      simp only [Option.map_map]
+      rfl
+    · have b1 : ((parseURI raw1 {}).1 != UErr.none) = false := by rw [c1]; rfl
+      have b2 : ((parseURI raw2 {}).1 != UErr.none) = true := by simpa using c2
+      simp only [b1, b2, Bool.false_eq_true, ↓reduceIte, Option.map_some]
+  · have b1 : ((parseURI raw1 {}).1 != UErr.none) = true := by simpa using c1
+    by_cases c2 : (parseURI raw2 {}).1 = UErr.none
+    · have b2 : ((parseURI raw2 {}).1 != UErr.none) = false := by rw [c2]; rfl
+      simp only [b1, b2, Bool.false_eq_true, ↓reduceIte, Option.map_some]
+    · have b2 : ((parseURI raw2 {}).1 != UErr.none) = true := by simpa using c2
+      simp only [b1, b2, ↓reduceIte, Option.map_some]
+
+/-- … with the complete results when both are accepted: same verdict, no error, the two parsed URIs handed back in the
+    order of the arguments -/
+theorem uriParseCmp_symm_full (raw1 raw2 : Buf) (f : Nat) (hfit1 : raw1.size ≤ 65535) (hfit2 : raw2.size ≤ 65535)
+    (hacc1 : (parseURI raw1 {}).1 = .none) (hacc2 : (parseURI raw2 {}).1 = .none)
+    (hnd1 : UclNoDup raw1) (hnd2 : UclNoDup raw2) :
+    ∃ r, uriParseCmp raw1 raw2 f = some (r, UErr.none, 0, some (parseURI raw1 {}).2.2.1, some (parseURI raw2 {}).2.2.1) ∧
+      uriParseCmp raw2 raw1 f = some (r, UErr.none, 0, some (parseURI raw2 {}).2.2.1, some (parseURI raw1 {}).2.2.1) := by
+  have h1 := ucl_parse_eq raw1 hfit1 hacc1
+  have h2 := ucl_parse_eq raw2 hfit2 hacc2
+  obtain ⟨r, hr⟩ := uriCmp_some _ raw1 _ raw2 f hfit1 hfit2 (srUriGet_parse raw1 hfit1 hacc1) (srUriGet_parse raw2 hfit2 hacc2)
+  refine ⟨r, ?_, ?_⟩
+  · rw [uriParseCmp_ok raw1 raw2 f h1 h2, hr]; rfl
+  · rw [uriParseCmp_ok raw2 raw1 f h2 h1, ← uriCmp_symm_parsed raw1 raw2 f hfit1 hfit2 hacc1 hacc2 hnd1 hnd2, hr]; rfl
+
+/-! ### (3) ParseURI does not look at the letter case of any byte -/
+
+def uclIsLetter (c : UInt8) : Bool := (65 ≤ c && c ≤ 90) || (97 ≤ c && c ≤ 122)
+
+theorem ucl_lowerB_letter_nat : ∀ a, a < 256 →
+    (uclIsLetter (UInt8.ofNat a) = false → lowerB (UInt8.ofNat a) = UInt8.ofNat a) ∧
+    (uclIsLetter (UInt8.ofNat a) = true → uclIsLetter (lowerB (UInt8.ofNat a)) = true ∧
+      UInt8.ofNat a ||| 0x20 = lowerB (UInt8.ofNat a)) := by
+  decide +kernel
+
+theorem ucl_lowerB_letter (c : UInt8) :
+    (uclIsLetter c = false → lowerB c = c) ∧
+    (uclIsLetter c = true → uclIsLetter (lowerB c) = true ∧ c ||| 0x20 = lowerB c) := by
+  have := ucl_lowerB_letter_nat c.toNat (UInt8.toNat_lt c)
+  simpa using this
+
+/-- two bytes with the same lower-case form are equal or both ASCII letters -/
+theorem ucl_lowerB_eq {c d : UInt8} (h : lowerB c = lowerB d) :
+    c = d ∨ (uclIsLetter c = true ∧ uclIsLetter d = true) := by
+  cases hc : uclIsLetter c <;> cases hd : uclIsLetter d
+  · left
+    rw [← (ucl_lowerB_letter c).1 hc, ← (ucl_lowerB_letter d).1 hd, h]
+  · have h1 := ((ucl_lowerB_letter d).2 hd).1
+    rw [← h, (ucl_lowerB_letter c).1 hc, hc] at h1
+    cases h1
+  · have h1 := ((ucl_lowerB_letter c).2 hc).1
+    rw [h, (ucl_lowerB_letter d).1 hd, hd] at h1
+    cases h1
+  · exact Or.inr ⟨rfl, rfl⟩
+
+theorem ucl_letter_nat : ∀ a, a < 256 → uclIsLetter (UInt8.ofNat a) = true →
+    (UInt8.ofNat a == 91) = false ∧ (UInt8.ofNat a == 58) = false ∧ (UInt8.ofNat a == 93) = false ∧
+    (UInt8.ofNat a == 64) = false ∧ (UInt8.ofNat a == 59) = false ∧ (UInt8.ofNat a == 63) = false ∧
+    (UInt8.ofNat a == 38) = false ∧ isDigit (UInt8.ofNat a) = false := by
+  decide +kernel
+
+/-- the URI automaton treats all letters alike: none of its tests singles out a letter -/
+theorem ucl_letter_facts {c : UInt8} (h : uclIsLetter c = true) :
+    (c == 91) = false ∧ (c == 58) = false ∧ (c == 93) = false ∧ (c == 64) = false ∧ (c == 59) = false ∧
+    (c == 63) = false ∧ (c == 38) = false ∧ isDigit c = false := by
+  have := ucl_letter_nat c.toNat (UInt8.toNat_lt c) (by simpa using h)
+  simpa using this
+
+theorem uriStep_letter (i : Nat) (c d : UInt8) (σ : UState) (hc : uclIsLetter c = true) (hd : uclIsLetter d = true) :
+    uriStep i c σ = uriStep i d σ := by
+  obtain ⟨c1, c2, c3, c4, c5, c6, c7, c8⟩ := ucl_letter_facts hc
+  obtain ⟨d1, d2, d3, d4, d5, d6, d7, d8⟩ := ucl_letter_facts hd
+  unfold uriStep
+  simp only [c1, c2, c3, c4, c5, c6, c7, c8, d1, d2, d3, d4, d5, d6, d7, d8, Bool.false_eq_true, ↓reduceIte, Bool.or_self]
+
+/-- one step of ParseURI's automaton gives the same result on two bytes that differ at most in letter case -/
+theorem uriStep_case (i : Nat) (c d : UInt8) (σ : UState) (h : lowerB c = lowerB d) : uriStep i c σ = uriStep i d σ := by
+  rcases ucl_lowerB_eq h with rfl | ⟨hc, hd⟩
+  · rfl
+  · exact uriStep_letter i c d σ hc hd
+
+/-- `b'` is `b` with some letters written in the other case, position by position -/
+def UclCaseVar (b b' : Buf) : Prop := ∀ j : Nat, (b'[j]?).map lowerB = (b[j]?).map lowerB
+
+theorem UclCaseVar.get_none {b b' : Buf} (h : UclCaseVar b b') {j : Nat} (hb : b[j]? = none) : b'[j]? = none := by
+  have := h j; rw [hb] at this; simpa using this
+
+theorem UclCaseVar.get_some {b b' : Buf} (h : UclCaseVar b b') {j : Nat} {c : UInt8} (hb : b[j]? = some c) :
+    ∃ c', b'[j]? = some c' ∧ lowerB c' = lowerB c := by
+  have := h j; rw [hb] at this
+  rcases hb' : b'[j]? with _ | c'
+  · rw [hb'] at this; cases this
+  · rw [hb'] at this; exact ⟨c', rfl, by simpa using this⟩
+
+theorem UclCaseVar.size {b b' : Buf} (h : UclCaseVar b b') : b'.size = b.size := by
+  rcases Nat.lt_trichotomy b'.size b.size with hlt | heq | hgt
+  · have h1 : b'[b'.size]? = none := Array.getElem?_eq_none (Nat.le_refl _)
+    have h2 := h b'.size
+    rw [h1, Array.getElem?_eq_getElem hlt] at h2; cases h2
+  · exact heq
+  · have h1 : b[b.size]? = none := Array.getElem?_eq_none (Nat.le_refl _)
+    have h2 := h b.size
+    rw [h1, Array.getElem?_eq_getElem hgt] at h2; cases h2
+
+theorem UclCaseVar.of_caseEq {b b' : Buf} (h : CaseEq b b') : UclCaseVar b b' := by
+  intro j
+  unfold CaseEq lowerL at h
+  have := congrArg (fun l => l[j]?) h
+  simp only [List.getElem?_map, Array.getElem?_toList] at this
+  exact this.symm
+
+theorem UclCaseVar.caseEq {b b' : Buf} (h : UclCaseVar b b') : CaseEq b b' := by
+  unfold CaseEq lowerL
+  apply List.ext_getElem?
+  intro j
+  simp only [List.getElem?_map, Array.getElem?_toList]
+  exact (h j).symm
+
+theorem uriLoop_case (b b' : Buf) (h : UclCaseVar b b') : ∀ (i : Nat) (σ : UState), uriLoop b' i σ = uriLoop b i σ := by
+  intro i σ
+  fun_induction uriLoop b i σ with
+  | case1 i σ hb =>
+    rw [uriLoop]
+    split
+    · rfl
+    · rename_i c hc
+      rw [h.get_none hb] at hc; cases hc
+  | case2 i σ c hb σ' hs ih =>
+    obtain ⟨c', hc', hl⟩ := h.get_some hb
+    rw [uriLoop]
+    split
+    · rename_i hc
+      rw [hc'] at hc; cases hc
+    · rename_i c'' hc
+      rw [hc'] at hc; cases hc
+      rw [uriStep_case i c' c σ hl]
+      simp only [hs]
+      exact ih
+  | case3 i σ c hb e p σ' hs =>
+    obtain ⟨c', hc', hl⟩ := h.get_some hb
+    rw [uriLoop]
+    split
+    · rename_i hc
+      rw [hc'] at hc; cases hc
+    · rename_i c'' hc
+      rw [hc'] at hc; cases hc
+      rw [uriStep_case i c' c σ hl]
+      simp only [hs]
+
+theorem ucl_or20 {c d : UInt8} (h : lowerB c = lowerB d) : c ||| 0x20 = d ||| 0x20 := by
+  rcases ucl_lowerB_eq h with rfl | ⟨hc, hd⟩
+  · rfl
+  · rw [((ucl_lowerB_letter c).2 hc).2, ((ucl_lowerB_letter d).2 hd).2, h]
+
+/-- **LETTER CASE, ParseURI**: ParseURI returns the same result (verdict, position, all component offsets and
+    lengths, port number) on two byte strings that differ only in the case of ASCII letters — anywhere: scheme, user,
+    host, parameters, headers. -/
+theorem parseURI_case (raw raw' : Buf) (pu : PsipURI) (h : UclCaseVar raw raw') : parseURI raw' pu = parseURI raw pu := by
+  have hsz := h.size
+  by_cases hlen : 5 ≤ raw.size
+  · have g : ∀ j, j < 5 → ∃ c, raw[j]? = some c := fun j hj =>
+      ⟨raw[j]'(by omega), Array.getElem?_eq_getElem (by omega)⟩
+    obtain ⟨c0, hc0⟩ := g 0 (by omega)
+    obtain ⟨c1, hc1⟩ := g 1 (by omega)
+    obtain ⟨c2, hc2⟩ := g 2 (by omega)
+    obtain ⟨c3, hc3⟩ := g 3 (by omega)
+    obtain ⟨c4, hc4⟩ := g 4 (by omega)
+    obtain ⟨a0, ha0, l0⟩ := h.get_some hc0
+    obtain ⟨a1, ha1, l1⟩ := h.get_some hc1
+    obtain ⟨a2, ha2, l2⟩ := h.get_some hc2
+    obtain ⟨a3, ha3, l3⟩ := h.get_some hc3
+    obtain ⟨a4, ha4, l4⟩ := h.get_some hc4
+    have hs := sch_congr (ucl_or20 l0) (ucl_or20 l1) (ucl_or20 l2) (ucl_or20 l3)
+    have h58 : (a4 == 58) = (c4 == 58) := by
+      rcases ucl_lowerB_eq l4 with rfl | ⟨x, y⟩
+      · rfl
+      · rw [(ucl_letter_facts x).2.1, (ucl_letter_facts y).2.1]
+    have lp : ∀ k σ, uriLoop raw' k σ = uriLoop raw k σ := uriLoop_case raw raw' h
+    unfold parseURI
+    simp only [hc0, hc1, hc2, hc3, hc4, ha0, ha1, ha2, ha3, ha4, hs, h58, lp]
+  · have n4 : raw[4]? = none := Array.getElem?_eq_none (by omega)
+    have n4' : raw'[4]? = none := Array.getElem?_eq_none (by omega)
+    unfold parseURI
+    rw [n4, n4', hsz]
+    rcases raw[0]? with _ | _ <;> rcases raw[1]? with _ | _ <;> rcases raw[2]? with _ | _ <;>
+      rcases raw[3]? with _ | _ <;> rcases raw'[0]? with _ | _ <;> rcases raw'[1]? with _ | _ <;>
+      rcases raw'[2]? with _ | _ <;> rcases raw'[3]? with _ | _ <;> rfl
+
 end Sipsp
